@@ -196,7 +196,14 @@ def check_formats(w, rec, act, label, st, expected, ids):
                 bad.append(("asnumpy_mismatch", f"{arr!r} vs {vals!r}"))
         if not any(isinstance(v, dict) for v in vals):
             ser = st.aspandas()
-            if list(ser.index) != ids:
+            if any(isinstance(i, tuple) for i in ids):
+                # pandas turns tuple keys into a MultiIndex (padding with NaN): the labels are
+                # pandas' business, only the order of the values is xgi's
+                got = [None if (x != x) else x for x in ser.tolist()]
+                if len(got) != len(ids) or any(not eqv(x, expected[i]) for x, i in zip(got, ids)
+                                               if expected[i] is not None):
+                    bad.append(("aspandas_order", f"values {got!r} vs view-ordered {vals!r}"))
+            elif list(ser.index) != ids:
                 bad.append(("aspandas_order", f"index {list(ser.index)!r} vs view order {ids!r}"))
             elif any(not eqv(ser[i] if not (ser[i] != ser[i]) else None, expected[i]) and not (
                     expected[i] is None and ser[i] != ser[i]) for i in ids):
@@ -325,7 +332,9 @@ def fam_multi(sim, w, rec, act, r):
             if list(arr.shape) != [len(ids), len(names)]:
                 bad.append(("multi_asnumpy_shape", repr(arr.shape)))
             df = ms.aspandas()
-            if list(df.index) != ids:
+            if any(isinstance(i, tuple) for i in ids):
+                pass  # MultiIndex built by pandas from tuple IDs: not xgi's labels any more
+            elif list(df.index) != ids:
                 bad.append(("aspandas_order", f"multi-stat frame index {list(df.index)!r} vs view order {ids!r}"))
             elif list(df.columns) != names or any(not eqv(df[nm][n], singles[nm][n]) for nm in names for n in ids):
                 bad.append(("multi_aspandas", repr(df.to_dict())[:300]))
